@@ -423,6 +423,13 @@ class SciPyOptimizer(Optimizer):
             compute_gradients = compute_gradients or (
                 self._config.optimizer.speculative and self._method not in _NO_GRADIENT
             )
+            # With split evaluations a gradient is never evaluated at a point
+            # without function values, that would be a combined evaluation:
+            compute_functions = compute_functions or (
+                compute_gradients
+                and self._config.optimizer.split_evaluations
+                and self._cached_function is None
+            )
             new_function, new_gradient = self._compute_functions_and_gradients(
                 variables,
                 compute_functions=compute_functions,
